@@ -24,6 +24,7 @@ type RegHarness struct {
 	Thorough   []map[string]int `json:"thorough"`
 	Witnesses  []string         `json:"witnesses"`
 	MapReverse bool             `json:"map_reverse_in_thorough"`
+	MapAlt     bool             `json:"map_alternate"`
 	Bound      string           `json:"bound"`
 }
 
@@ -242,7 +243,7 @@ func cmdCheck(args []string) int {
 				return inconclusive("HARNESS-BUILD-ERROR no harness function " + in.rh.Name)
 			}
 			fns = append(fns, fn)
-			cfg.Harnesses = append(cfg.Harnesses, HarnessSpec{Name: in.label, Fn: fn, Params: in.params, MapReverse: strings.HasSuffix(in.label, "[map-reverse]"), Witnesses: in.rh.Witnesses})
+			cfg.Harnesses = append(cfg.Harnesses, HarnessSpec{Name: in.label, Fn: fn, Params: in.params, MapReverse: strings.HasSuffix(in.label, "[map-reverse]"), MapAlternate: in.rh.MapAlt, Witnesses: in.rh.Witnesses})
 		}
 		// anchor functions for block coverage
 		cfg.CoverFns = map[*ssa.Function]bool{}
@@ -311,8 +312,8 @@ func cmdCheck(args []string) int {
 			rf := &ReplayFile{Harness: nameByLabel[c.Harness], Target: tg, Pkg: fnByLabel[c.Harness].Pkg.Pkg.Path(), Vars: c.Vars, Params: c.Params,
 				Property: c.Property, AssertID: c.AssertID, Kind: c.Kind, Msg: c.Msg, Known: c.Known, Render: c.Render}
 			tries := 1
-			if strings.Contains(c.Harness, "map") {
-				tries = 8
+			if strings.Contains(c.Harness, "map") || strings.Contains(c.Harness, "Repeat_Stable") {
+				tries = 8 // the native iteration order of Go maps is random
 			}
 			var nr *NativeResult
 			for k := 0; k < tries; k++ {
